@@ -21,6 +21,12 @@ func main() {
 		cmdDump(os.Args[2:])
 	case "verify":
 		cmdVerify(os.Args[2:])
+	case "check":
+		cmdCheck(os.Args[2:])
+	case "replay":
+		cmdReplay(os.Args[2:])
+	case "obls":
+		cmdObls(os.Args[2:])
 	default:
 		fmt.Fprintln(os.Stderr, "unknown command", os.Args[1])
 		os.Exit(2)
